@@ -24,6 +24,8 @@ pub use token_ring::TokenRing;
 pub(crate) use token_ring::verif_hooks as verif_token_ring;
 #[cfg(feature = "scylla-verif")]
 pub(crate) use replication_info::verif_hooks as verif_replication_info;
+#[cfg(feature = "scylla-verif")]
+pub(crate) use precomputed_replicas::verif_hooks as verif_precomputed_replicas;
 
 use self::tablets::TabletsInfo;
 
